@@ -217,6 +217,191 @@ def measure(text, cap=None, funcs=None, edges=None, method=None):
     return out, get_n()
 
 
+_WARM = False
+_KIND = {}  # code object -> 0 ignored, 1 parser file, 2 other Python code
+_IGNORED_DIRS = None
+
+
+def _code_kind(code) -> int:
+    """1: c_parser/c_lexer/ast_transforms; 0: the harness itself and the `re`
+    package (its pattern cache makes the first use of a pattern cost thousands
+    of calls once per process - not work that depends on the input) and
+    copyreg (caches __slotnames__ on a class the first time an instance is
+    copied; copy.py itself stays counted); 2: any
+    other Python code that runs on behalf of parse() - c_ast constructors,
+    typing.cast, copy.deepcopy, ..."""
+    global _IGNORED_DIRS
+    if _is_counted(code):
+        return 1
+    if _IGNORED_DIRS is None:
+        import copyreg as _copyreg
+        import re as _re
+
+        _IGNORED_DIRS = (os.path.realpath(os.path.dirname(_re.__file__)),
+                         os.path.realpath(os.path.dirname(__file__)),
+                         os.path.realpath(_copyreg.__file__))
+    fn = os.path.realpath(code.co_filename)
+    return 0 if (os.path.dirname(fn) in _IGNORED_DIRS or fn in _IGNORED_DIRS) else 2
+
+
+def measure_both(text, cap=None, cap_total=None):
+    """-> (outcome, steps, total).  steps as measure(); total = function
+    entries (PY_START) of *all* Python code running during parse(), so that
+    work done in library code on behalf of the parser (say a deep copy of a
+    sub-tree) is visible too.  Either cap ends the run with outcome 'cap'."""
+    import gc
+
+    from pycparser.c_parser import CParser, ParseError
+
+    if sys.getrecursionlimit() < RECURSION_LIMIT:
+        sys.setrecursionlimit(RECURSION_LIMIT)
+    global _WARM
+    if not _WARM:
+        # once per process: let every lazily initialised library path (regex
+        # flag arithmetic on the first re.match of a pattern, ...) happen
+        # before anything is counted
+        _WARM = True
+        CParser().parse('# 1 "f.c" 3\n#line 2 "g.c" 1 2\n#pragma p\nint x = sizeof(int);\n')
+    parser = CParser()
+    kind = _KIND
+    lim1 = cap if cap is not None else 1 << 62
+    lim2 = cap_total if cap_total is not None else 1 << 62
+    box = [0, 0]
+    out = "ok"
+    gc_was = gc.isenabled()
+    gc.disable()
+    try:
+        if hasattr(sys, "monitoring"):
+            mon = sys.monitoring
+            DISABLE = mon.DISABLE
+
+            def cb(code, offset):
+                k = kind.get(code)
+                if k is None:
+                    k = kind[code] = _code_kind(code)
+                if k == 0:
+                    return DISABLE
+                box[1] += 1
+                if k == 1:
+                    box[0] += 1
+                    if box[0] > lim1:
+                        raise StepCap()
+                if box[1] > lim2:
+                    raise StepCap()
+
+            global _MON_TOOL
+            if _MON_TOOL is None:
+                for tid in (4, 3):
+                    if mon.get_tool(tid) is None:
+                        _MON_TOOL = tid
+                        break
+                else:
+                    raise RuntimeError("no free sys.monitoring tool id")
+            tool = _MON_TOOL
+            mon.use_tool_id(tool, "verif-family-sweep")
+            try:
+                mon.register_callback(tool, mon.events.PY_START, cb)
+                mon.restart_events()
+                mon.set_events(tool, mon.events.PY_START)
+                try:
+                    parser.parse(text)
+                finally:
+                    mon.set_events(tool, 0)
+                    mon.register_callback(tool, mon.events.PY_START, None)
+            finally:
+                mon.free_tool_id(tool)
+        else:  # interpreters without sys.monitoring: `call` events instead
+
+            def prof(frame, event, arg):
+                if event == "call":
+                    code = frame.f_code
+                    k = kind.get(code)
+                    if k is None:
+                        k = kind[code] = _code_kind(code)
+                    if k:
+                        box[1] += 1
+                        if k == 1:
+                            box[0] += 1
+                        if box[0] > lim1 or box[1] > lim2:
+                            raise StepCap()
+
+            sys.setprofile(prof)
+            try:
+                parser.parse(text)
+            finally:
+                sys.setprofile(None)
+    except ParseError as e:
+        out = "perr:" + str(e)[:120]
+    except RecursionError:
+        out = "rec"
+    except StepCap:
+        out = "cap"
+    except Exception as e:  # noqa
+        out = "exc:" + repr(e)[:120]
+    finally:
+        if gc_was:
+            gc.enable()
+    return out, box[0], box[1]
+
+
+def foreign_attribution(text, edges, cap=None):
+    """For the origin analysis of a blow-up seen only by the all-python
+    counter: edges['in'][f] = entries of parser function f; edges['out'][f] =
+    entries of non-parser Python code whose innermost parser-file caller on
+    the stack is f.  -> outcome."""
+    from pycparser.c_parser import CParser, ParseError
+
+    measure_both("int x;")  # warm, recursion limit
+    mon = sys.monitoring
+    kind = _KIND
+    e_in = edges.setdefault("in", {})
+    e_out = edges.setdefault("out", {})
+    getframe = sys._getframe
+    limit = cap if cap is not None else 1 << 62
+    n = [0]
+
+    def cb(code, offset):
+        k = kind.get(code)
+        if k is None:
+            k = kind[code] = _code_kind(code)
+        if k == 0:
+            return mon.DISABLE
+        n[0] += 1
+        if n[0] > limit:
+            raise StepCap()
+        if k == 1:
+            e_in[code.co_name] = e_in.get(code.co_name, 0) + 1
+            return
+        f = getframe(1).f_back
+        while f is not None:
+            if kind.get(f.f_code) == 1:
+                nm = f.f_code.co_name
+                e_out[nm] = e_out.get(nm, 0) + 1
+                return
+            f = f.f_back
+
+    parser = CParser()
+    tool = 4 if mon.get_tool(4) is None else 3
+    mon.use_tool_id(tool, "verif-family-sweep")
+    out = "ok"
+    try:
+        mon.register_callback(tool, mon.events.PY_START, cb)
+        mon.restart_events()
+        mon.set_events(tool, mon.events.PY_START)
+        try:
+            parser.parse(text)
+        except ParseError:
+            out = "perr"
+        except StepCap:
+            out = "cap"
+        finally:
+            mon.set_events(tool, 0)
+            mon.register_callback(tool, mon.events.PY_START, None)
+    finally:
+        mon.free_tool_id(tool)
+    return out
+
+
 def steps(text):
     """Number of call events inside the parser modules during parse(text)."""
     return measure(text)[1]
@@ -356,6 +541,14 @@ REPEATABLE = {
     "struct_members": ("struct S {", lambda i: f"int m{i};", " ", "};"),
     "struct_declarators": ("struct S { int ", lambda i: f"m{i}", ", ", "; };"),
     "bitfields": ("struct S {", lambda i: f"int m{i} : 3;", " ", "};"),
+    # one specifier, k declarators (and k members x k declarators: the
+    # `_rep2` entries put k items in both places)
+    "struct_def_k_declarators": ("struct S {int a; char b;} ", lambda i: f"v{i}", ", ", ";"),
+    "union_def_k_declarators": ("union U {int a; char b;} ", lambda i: f"*v{i}", ", ", ";"),
+    "enum_def_k_declarators": ("enum E {A, B} ", lambda i: f"v{i}[2]", ", ", ";"),
+    "typedef_struct_k_names": ("typedef struct {int a;} ", lambda i: f"T{i}", ", ", ";"),
+    "local_struct_k_declarators": ("void f(void){ struct {int a;} ", lambda i: f"v{i}", ", ", "; }"),
+    "member_struct_k_declarators": ("struct S { struct {int a;} ", lambda i: f"m{i}", ", ", "; };"),
     "init_items": ("int a[] = {", lambda i: f"{i}", ", ", "};"),
     "init_items_designated": ("int a[] = {", lambda i: f"[{i}] = {i}", ", ", "};"),
     "designator_chain": ("struct s v = { ", lambda i: ".m[0]", "", " = 1 };"),
@@ -411,16 +604,41 @@ REPEATABLE = {
 }
 
 
+# k items in two places at once: name -> (text before, item1, sep1, text
+# between, item2, sep2, text after)
+REPEATABLE2 = {
+    "struct_k_members_k_declarators": ("struct S {", lambda i: f"int m{i};", " ", "} ",
+                                       lambda i: f"v{i}", ", ", ";"),
+    "union_k_members_k_declarators": ("union U {", lambda i: f"int m{i};", " ", "} ",
+                                      lambda i: f"*v{i}", ", ", ";"),
+    "enum_k_enumerators_k_declarators": ("enum E {", lambda i: f"e{i}", ", ", "} ",
+                                         lambda i: f"v{i}", ", ", ";"),
+    "typedef_struct_k_members_k_names": ("typedef struct {", lambda i: f"int m{i};", " ", "} ",
+                                         lambda i: f"T{i}", ", ", ";"),
+    "member_struct_k_members_k_declarators": ("struct S { struct {", lambda i: f"int m{i};", " ", "} ",
+                                              lambda i: f"n{i}", ", ", "; };"),
+}
+# (the text of such a member grows linearly in k, so the oracle is unchanged)
+
+
 def repeat_text(name, k):
+    if name in REPEATABLE2:
+        a, i1, s1, b, i2, s2, c = REPEATABLE2[name]
+        return (a + s1.join(i1(i) for i in range(k)) + b
+                + s2.join(i2(i) for i in range(k)) + c)
     pre, item, sep, suf = REPEATABLE[name]
     return pre + sep.join(item(i) for i in range(k)) + suf
+
+
+def repeat_names():
+    return list(REPEATABLE) + list(REPEATABLE2)
 
 
 # ---------------------------------------------------------------------------
 # nestable constructs
 # ---------------------------------------------------------------------------
 # Categories: E expression, I initializer, S statement, B block item (a
-# statement or a declaration), D declarator, A abstract declarator, TS type
+# statement or a declaration), F file-scope declaration, D declarator, A abstract declarator, TS type
 # specifier, TN type name.
 # Levels (only E, D, A have more than one):
 #   E: 0 comma, 1 assignment, 2 conditional, 3 binary, 4 cast, 5 unary,
@@ -489,6 +707,17 @@ _N = [
     # ---- type specifiers / type names ------------------------------------
     Nest("struct_nest", "TS", "TS", "struct {@ m;}", 0, 0),
     Nest("union_nest", "TS", "TS", "union {@ m;}", 0, 0),
+    # the same specifier shared by several declarators (members, and complete
+    # declarations at block / file scope, plain and typedef)
+    Nest("struct_nest_2decl", "TS", "TS", "struct {@ a, b;}", 0, 0),
+    Nest("union_nest_3decl", "TS", "TS", "union {@ a, *b, c[2];}", 0, 0),
+    Nest("enum_value_2decl_member", "TS", "E", "struct {enum {e = @} a, b;}", 2, 0),
+    Nest("block_struct_2decl", "B", "TS", "struct {@ m;} a, b;", 0, 0),
+    Nest("block_typedef_2decl", "B", "TS", "typedef struct {@ m;} T1, *T2;", 0, 0),
+    Nest("file_struct_3decl", "F", "TS", "struct {@ m, n;} a, *b, c[2];", 0, 0),
+    Nest("file_union_2decl", "F", "TS", "union {@ m;} a, b;", 0, 0),
+    Nest("file_typedef_2decl", "F", "TS", "typedef union {@ m, n;} T1, *T2;", 0, 0),
+    Nest("file_enum_2decl", "F", "E", "enum {e = @} a, b;", 2, 0),
     Nest("struct_member_bound", "TS", "E", "struct {int m[@];}", 1, 0),
     Nest("bitfield_width", "TS", "E", "struct {int m : @;}", 2, 0),
     Nest("enum_value", "TS", "E", "enum {e = @}", 2, 0),
@@ -533,12 +762,13 @@ GLUE = {
     ("D", "TS"): ("struct {int @;}", 0, 0),
     ("I", "B"): ("int v = @;", 0, 0),
 }
-CATS = ("E", "I", "S", "B", "D", "A", "TS", "TN")
+CATS = ("E", "I", "S", "B", "F", "D", "A", "TS", "TN")
 PREFIX = "typedef int T; "
 # outermost category -> translation unit
 ROOT = {
     "S": "void f(void){ @ }",
     "B": "void f(void){ @ }",
+    "F": "@",
     "E": "int v = @;",
     "I": "int v = @;",
     "D": "int @;",
@@ -722,6 +952,119 @@ LEXER_FAMILIES = {
     "blank_run": lambda n: " " * n + "x",
     "newline_run": lambda n: "\n" * n + "x",
 }
+
+
+# ---------------------------------------------------------------------------
+# long runs that ALMOST match a longer rule: name -> (regex class, n -> text).
+# Sizes go up to 2^16 characters (~2 ms for a linear regex), so that a
+# quadratic rule crosses the 20 ms threshold of the growth-ratio rule twice.
+# ---------------------------------------------------------------------------
+RUN_SIZES = (1 << 10, 1 << 12, 1 << 14, 1 << 16)
+
+
+def _runs():
+    out = {}
+    hexd, digs = "f", "1"
+    for pre in ("0x", "0X"):
+        out[f"hex_{pre}_digits"] = ("hex", lambda n, p=pre: p + hexd * n)
+    out["hex_mixed_digits"] = ("hex", lambda n: "0x" + "9aF" * (n // 3))
+    out["hex_dot_hex_no_p"] = ("hex", lambda n: "0X" + hexd * (n // 2) + "." + hexd * (n // 2))
+    out["hex_dot_no_p"] = ("hex", lambda n: "0x" + hexd * n + ".")
+    out["hex_leading_dot_no_p"] = ("hex", lambda n: "0x." + hexd * n)
+    out["hex_p_no_exponent"] = ("hex", lambda n: "0x" + hexd * n + "p")
+    out["hex_p_sign_no_exponent"] = ("hex", lambda n: "0x" + hexd * n + "p+")
+    out["hex_float_long_significand"] = ("hex", lambda n: "0x" + hexd * n + "p1")
+    out["hex_float_long_exponent"] = ("hex", lambda n: "0x1p" + digs * n)
+    for suf in ("u", "ul", "ull", "lul", "LL", "llu", "lu", "uLL", "g"):
+        out[f"hex_digits_suffix_{suf}"] = ("hex", lambda n, q=suf: "0x" + hexd * n + q)
+    out["bin_digits"] = ("bin", lambda n: "0b" + digs * n)
+    out["bin_digits_then_2"] = ("bin", lambda n: "0b" + digs * n + "2")
+    out["bin_digits_suffix_ull"] = ("bin", lambda n: "0B" + "10" * (n // 2) + "ull")
+    out["dec_digits"] = ("dec", lambda n: digs * n)
+    for suf in ("u", "ul", "ull", "lul", "LL", "llu", "lu", "uLL", "f", "x", "uu"):
+        out[f"dec_digits_suffix_{suf}"] = ("dec", lambda n, q=suf: digs * n + q)
+    out["oct_digits"] = ("oct", lambda n: "0" + "7" * n)
+    out["oct_digits_then_9"] = ("oct", lambda n: "0" + "7" * n + "9")
+    out["oct_digits_then_8_then_digits"] = ("oct", lambda n: "0" + "7" * (n // 2) + "8" + "7" * (n // 2))
+    out["oct_digits_suffix_ull"] = ("oct", lambda n: "0" + "7" * n + "ull")
+    out["zeros"] = ("oct", lambda n: "0" * n)
+    out["float_digits_dot"] = ("float", lambda n: digs * n + ".")
+    out["float_digits_e"] = ("float", lambda n: digs * n + "e")
+    out["float_digits_e_plus"] = ("float", lambda n: digs * n + "e+")
+    out["float_dot_digits"] = ("float", lambda n: "." + digs * n)
+    out["float_dot_digits_e"] = ("float", lambda n: "." + digs * n + "e")
+    out["float_digits_dot_digits_e_minus"] = ("float", lambda n: digs * (n // 2) + "." + digs * (n // 2) + "e-")
+    out["float_digits_dot_digits_f"] = ("float", lambda n: digs * (n // 2) + "." + digs * (n // 2) + "f")
+    out["float_digits_dot_digits_ff"] = ("float", lambda n: digs * (n // 2) + "." + digs * (n // 2) + "ff")
+    out["float_long_exponent"] = ("float", lambda n: "1e" + digs * n)
+    out["float_long_exponent_L"] = ("float", lambda n: "1.e-" + digs * n + "L")
+    for ch in ("L", "u", "U", "_", "$", "a", "x", "e", "p"):
+        out[f"ident_run_{ch}"] = ("ident", lambda n, c=ch: c * n)
+    out["ident_u8_run"] = ("ident", lambda n: "u8" * (n // 2))
+    out["ident_u8_then_letters"] = ("ident", lambda n: "u8" + "a" * n)
+    out["ident_keyword_run"] = ("ident", lambda n: "int" * (n // 3))
+    out["ident_keyword_then_letters"] = ("ident", lambda n: "_Bool" + "x" * n)
+    out["ident_letters_digits"] = ("ident", lambda n: "a" + "9" * n)
+    out["ident_L_run_then_quote"] = ("ident", lambda n: "L" * n + "'a'")
+    out["ident_L_run_then_dquote"] = ("ident", lambda n: "L" * n + '"a"')
+    out["ident_u8_run_then_dquote"] = ("ident", lambda n: "u8" * (n // 2) + '"a"')
+    return out
+
+
+RUN_FAMILIES = _runs()
+
+
+def run_text(name, n, embedded):
+    """The bare run, or the run as an initialiser for parse()."""
+    t = RUN_FAMILIES[name][1](n)
+    return f"int x = {t};\n" if embedded else t
+
+
+def parse_time(text, repeat=3, warm_limit=120.0, run_limit=20.0):
+    """CPU/wall time of CParser().parse(text) (a ParseError is an outcome, not
+    a failure): warm-up + best of `repeat`, with the watchdog.
+    -> (seconds, 1 if accepted else 0, 0 if accepted else 1) | ('timeout', ..)."""
+    import signal
+
+    from pycparser.c_parser import CParser, ParseError
+
+    tune_malloc()
+
+    def once():
+        p = CParser()
+        t0 = time.perf_counter()
+        c0 = time.process_time()
+        try:
+            p.parse(text)
+            ok = 1
+        except ParseError:
+            ok = 0
+        return min(time.perf_counter() - t0, time.process_time() - c0), ok
+
+    old = signal.signal(signal.SIGALRM, _alarm)
+    try:
+        try:
+            signal.setitimer(signal.ITIMER_REAL, warm_limit)
+            once()
+        except LexTimeout:
+            return ("timeout", "warm-up", warm_limit)
+        finally:
+            signal.setitimer(signal.ITIMER_REAL, 0)
+        best = None
+        ok = 0
+        for _ in range(repeat):
+            try:
+                signal.setitimer(signal.ITIMER_REAL, run_limit)
+                dt, ok = once()
+            except LexTimeout:
+                return ("timeout", "timed run", run_limit)
+            finally:
+                signal.setitimer(signal.ITIMER_REAL, 0)
+            if best is None or dt < best:
+                best = dt
+        return best, ok, 1 - ok
+    finally:
+        signal.signal(signal.SIGALRM, old)
 
 
 # ---------------------------------------------------------------------------
